@@ -35,7 +35,7 @@ func deleteChildOperator(d *dataTreeNavigator, context Context, expressionNode *
 		if parentNode.Kind == MappingNode {
 			deleteFromMap(candidate.Parent, childPath)
 		} else if parentNode.Kind == SequenceNode {
-			deleteFromArray(candidate.Parent, childPath)
+			deleteFromArray(candidate.Parent, candidate)
 		} else {
 			return Context{}, fmt.Errorf("cannot delete nodes from parent of tag %v", parentNode.Tag)
 		}
@@ -76,7 +76,9 @@ func deleteFromMap(node *CandidateNode, childPath interface{}) {
 	node.Content = newContents
 }
 
-func deleteFromArray(node *CandidateNode, childPath interface{}) {
+// removes the victim itself (by identity): its recorded index may be stale
+// when the sequence was rebuilt by sort, reverse, slicing, +, ...
+func deleteFromArray(node *CandidateNode, victim *CandidateNode) {
 	log.Debug("deleteFromArray")
 	contents := node.Content
 	newContents := make([]*CandidateNode, 0)
@@ -84,7 +86,7 @@ func deleteFromArray(node *CandidateNode, childPath interface{}) {
 	for index := 0; index < len(contents); index = index + 1 {
 		value := contents[index]
 
-		shouldDelete := fmt.Sprintf("%v", index) == fmt.Sprintf("%v", childPath)
+		shouldDelete := value == victim
 
 		if !shouldDelete {
 			value.Key.Value = fmt.Sprintf("%v", len(newContents))
